@@ -11,6 +11,7 @@ import Rsbdd.Model.Gen.CliqueText
 import Rsbdd.Model.Gen.Sudoku
 import Rsbdd.Model.Gen.SudokuText
 import Rsbdd.Model.Gen.Graph
+import Rsbdd.Model.Gen.GraphText
 import Rsbdd.Spec.Puzzles
 
 namespace Rsbdd
@@ -374,6 +375,29 @@ def handleC18 (fields : List String) : Verdict :=
     { modelOk := false, modelOut := "an edge list", oracle := some "the output is not an edge list of the requested format" }
   | ["convert", _, _, "ok", "UNREADABLE"] =>
     { modelOk := false, modelOut := "an edge list", oracle := some "the --convert output is not an edge list" }
+  | ["text", form, u, harnessPairs, rawHex, input] =>
+    -- the bytes against the text model of Thm/C18T: read by the Lean readers (agreement with the harness's reading
+    -- required); for --convert (`input` given) compared with the text of the model's converted list
+    match parsePairs harnessPairs, unhexStr rawHex with
+    | some hp, some raw =>
+      let und := u == "1"
+      let toE := fun (p : String × String) => (p.1.toList, p.2.toList)
+      let read : Option (List GraphText.Edge) :=
+        if form == "dot" then (match GraphText.readDot raw.toList with
+          | some (uu, es) => if uu == und then some es else none
+          | none => none)
+        else GraphText.readCsv raw.toList
+      let agree := read == some (hp.map toE)
+      let tie : Option String := if input == "-" then none else
+        match parsePairs input with
+        | some inp =>
+          let m := (Graph.readGraph inp und).map toE
+          let t := if form == "dot" then GraphText.dotText und m else GraphText.csvText m
+          some (if t == raw.toList then "graph-text.identical" else "graph-text.differs")
+        | none => none
+      { modelOk := agree, modelOut := if agree then "" else "the two readers of the edge list disagree (or the Lean reader refuses the text)",
+        nontrivial := hp.length > 1, info := tie }
+    | _, _ => Verdict.badLine "unreadable text line"
   | ["colors", _, _, "ok", "UNREADABLE"] =>
     { modelOk := false, modelOut := "an edge list", oracle := some "the --colors output is not an edge list" }
   | ["gen", v, e, u, complete, cls, edges] =>
